@@ -56,7 +56,10 @@ AXIS_REASON = {AX_WS: 'armor line with trailing whitespace (look-alike or armor?
                AX_OPQ: 'content of armor headers / signature block (strict or opaque?)',
                AX_NONL: 'END line without final newline (truncated or fine?)'}
 
-Verdict = collections.namedtuple('Verdict', 'kind entries text allowed framing_ok defects touched pos')
+# block_text: the BEGIN-SIGNED .. END-SIGNATURE text of the first signed block when that block is
+# well-formed in itself (whatever stands before / after it), else None.  text: what MUST be handed
+# to verification (kind VS) / what MAY be (kind INV with framing_ok: only the signed body is wrong).
+Verdict = collections.namedtuple('Verdict', 'kind entries text allowed framing_ok defects touched pos block_text')
 
 
 class Alphabet:
@@ -163,16 +166,17 @@ def scan(A, seq, final_nl, ws_arm, opaque, nonl_fine):
         if armor:
             defects.append('armor_without_block')
         if not defects:
-            return Verdict('VU', entries, None, frozenset(), True, (), touched, pos)
+            return Verdict('VU', entries, None, frozenset(), True, (), touched, pos, None)
         allowed.add(SYN)
         if armor and content:
             allowed.add(UNS)        # generous: a signature was attempted and there is content it cannot cover
-        return Verdict('INV', None, None, frozenset(allowed), False, tuple(defects), touched, pos)
+        return Verdict('INV', None, None, frozenset(allowed), False, tuple(defects), touched, pos, None)
 
     pos = ['pre'] * i0 + ['SB']
     for x in r[:i0]:
         _outside(x, defects, allowed)
     framing_ok = not defects
+    block_ok = True
     e = -1
     k = i0 + 1
     # armor headers up to the first blank line
@@ -181,17 +185,17 @@ def scan(A, seq, final_nl, ws_arm, opaque, nonl_fine):
             # an armor(-like) line among the armor headers is misplaced armor under every reading
             # (statement: "truncated or misplaced armor is rejected as a syntax error")
             defects.append('header_armor')
-            framing_ok = False
+            framing_ok = block_ok = False
         elif not (r[k] == R_HD and A.hd_is_header):
             touched |= AX_OPQ
             if not opaque:
                 defects.append('bad_header')
-                framing_ok = False
+                framing_ok = block_ok = False
         pos.append('hdr')
         k += 1
     if k >= n:
         defects.append('truncated_in_headers')
-        framing_ok = False
+        framing_ok = block_ok = False
     else:
         pos.append('sep')
         k += 1
@@ -206,14 +210,14 @@ def scan(A, seq, final_nl, ws_arm, opaque, nonl_fine):
                 pass
             elif x in (R_SB, R_GE, R_ARM):
                 defects.append('body_armor')
-                framing_ok = False
+                framing_ok = block_ok = False
             else:       # header text, junk, or a dash-escaped armor line: signed, but not a Manifest entry
                 defects.append('body_junk')
             pos.append('body')
             k += 1
         if k >= n:
             defects.append('truncated_in_body')
-            framing_ok = False
+            framing_ok = block_ok = False
         else:
             pos.append('GB')
             k += 1
@@ -221,17 +225,17 @@ def scan(A, seq, final_nl, ws_arm, opaque, nonl_fine):
                 if r[k] in (R_SB, R_GB, R_ARM):
                     # likewise: armor(-like) lines inside the signature block are misplaced armor
                     defects.append('sig_armor')
-                    framing_ok = False
+                    framing_ok = block_ok = False
                 elif r[k] not in (R_HD, R_BLANK):
                     touched |= AX_OPQ
                     if not opaque:
                         defects.append('bad_sigline')
-                        framing_ok = False
+                        framing_ok = block_ok = False
                 pos.append('sig')
                 k += 1
             if k >= n:
                 defects.append('truncated_in_signature')
-                framing_ok = False
+                framing_ok = block_ok = False
             else:
                 e = k
                 pos.append('GE')
@@ -239,7 +243,7 @@ def scan(A, seq, final_nl, ws_arm, opaque, nonl_fine):
                     touched |= AX_NONL
                     if not nonl_fine:
                         defects.append('end_line_unterminated')
-                        framing_ok = False
+                        framing_ok = block_ok = False
                 for x in r[e + 1:]:
                     pos.append('post')
                     if x != R_BLANK:
@@ -251,13 +255,13 @@ def scan(A, seq, final_nl, ws_arm, opaque, nonl_fine):
         if e == n - 1 and not final_nl:
             text = text[:-1]
     if not defects:
-        return Verdict('VS', entries, text, frozenset(), True, (), touched, pos)
+        return Verdict('VS', entries, text, frozenset(), True, (), touched, pos, text)
     for d in defects:
         if d not in ('outside_entry', 'outside_junk', 'outside_armor'):
             allowed.add(SYN)
             break
     return Verdict('INV', entries, text if framing_ok else None, frozenset(allowed), framing_ok,
-                   tuple(defects), touched, pos)
+                   tuple(defects), touched, pos, text if block_ok else None)
 
 
 def readings(A, seq, final_nl):
